@@ -234,6 +234,22 @@ func genC18(c *ctx) {
 		}
 		addProhibits(m.Cav{Kind: "CMaxValidity", ID: mv}, mkDR(r, r.Intn(2), 0, 0, "rel", ds), "maxvalidity/random", true)
 	}
+	// 2b. the limit that counts can sit under any number of conditional wrappers
+	for _, depth := range []int{1, 2, 31, 32, 33, 34, 64, 100} {
+		inner := m.Cav{Kind: "CMaxValidity", ID: 60}
+		for k := 0; k < depth; k++ {
+			ifs := []m.Cav{inner}
+			inner = m.Cav{Kind: "CIfPresent", Ifs: &ifs, Mask: 1}
+		}
+		set := []m.Cav{{Kind: "CMaxValidity", ID: 5000}, inner}
+		d, f := auth.GetMaxValidity(macaroon.NewCaveatSet(m.CavsGo(set)...))
+		st.Add(&cs.Case{
+			Coq:        coqw.App("KMaxValidity", m.CavsCoq(set), coqw.Z(int64(d)), coqw.Bool(f)),
+			Desc:       map[string]any{"op": "GetMaxValidity", "nesting_depth": depth, "impl_duration_ns": int64(d), "impl_found": f},
+			Class:      "getmaxvalidity/deep",
+			Nontrivial: true,
+		})
+	}
 	// 3. effective maximum over nested sets, and clearing of whole sets
 	nSets := 400
 	if c.thorough {
